@@ -30,6 +30,7 @@ type FieldInfo struct {
 	Type types.Type
 	Sort string
 	Acc  string // datatype accessor
+	Opaque bool // unexported field of another module's struct: an opaque Int
 }
 
 func newTypeEnv(g *Global, bv bool) *TypeEnv {
@@ -154,9 +155,20 @@ func (te *TypeEnv) Struct(t types.Type) *StructInfo {
 		return si
 	}
 	var fs []string
+	external := false
+	if n, ok := t.(*types.Named); ok && n.Obj().Pkg() != nil && !strings.HasPrefix(n.Obj().Pkg().Path(), "github.com/andydunstall/piko") {
+		external = true
+	}
 	for i := 0; i < st.NumFields(); i++ {
 		f := st.Field(i)
-		fi := FieldInfo{Name: f.Name(), Type: f.Type(), Sort: te.SortOf(f.Type()), Acc: fmt.Sprintf("%s.%s", key, f.Name())}
+		fsort := ""
+		if external && !f.Exported() {
+			// unexported fields of other modules' structs are never accessed from piko: opaque
+			fsort = SInt
+		} else {
+			fsort = te.SortOf(f.Type())
+		}
+		fi := FieldInfo{Name: f.Name(), Type: f.Type(), Sort: fsort, Acc: fmt.Sprintf("%s.%s", key, f.Name()), Opaque: external && !f.Exported()}
 		si.Fields = append(si.Fields, fi)
 		fs = append(fs, fmt.Sprintf("(%s %s)", fi.Acc, fi.Sort))
 	}
@@ -239,6 +251,10 @@ func (te *TypeEnv) Zero(t types.Type) Term {
 		}
 		var fs []Term
 		for _, f := range si.Fields {
+			if f.Opaque {
+				fs = append(fs, IntLit(0))
+				continue
+			}
 			fs = append(fs, te.Zero(f.Type))
 		}
 		return te.MkStruct(t, fs)
